@@ -1,6 +1,7 @@
 """C09 - matching: the caller's instantiation is never modified (copy on entry, deep enough copy), and an
 existing binding is never overwritten."""
 import ast
+import re
 
 from ..core import RuleResult, need
 from ..cfg import cfg_of
@@ -123,22 +124,56 @@ def rule_n2(repo):
     return res
 
 
+def _key(flow, e):
+    """the variable name a binding is filed under, as a canonical text: locals that were given the value once are read through, and
+    `X.head.name` is `X.name` (a term that has a name is its own head)"""
+    t = src(flow.inline(e), 80)
+    return re.sub(r'\.head\.name$', '.name', t)
+
+
+_matcher_views = {}
+
+
+def matcher_nested(repo):
+    """The functions nested in first_order_match as the rules read them: the recursive worker(s) with the non-recursive helpers defined
+    beside them (a step such as `assign(svar, s)` that was moved out of the worker) expanded at their calls (sa/inline.py).  A helper that
+    could not be expanded everywhere stays an entry of its own."""
+    from ..inline import inlined
+    if id(repo) in _matcher_views:
+        return _matcher_views[id(repo)][1]
+    f = repo.func(MATCHER, 'first_order_match')
+    rec = {n for n, g in f.nested.items() if any(isinstance(c, ast.Call) and is_name(c.func, n) for c in ast.walk(g.node))}
+    out = {}
+    left_over = set()
+    for n, g in f.nested.items():
+        if n in rec or not rec:
+            g2, done, left = inlined(g, lambda h: h.parent is not None and h.name not in rec and h.name != g.name)
+            out[n] = g2
+            left_over |= {getattr(x, 'name', str(x)) for x in left}
+    for n, g in f.nested.items():
+        if n not in out and (n in left_over or not any(isinstance(c, ast.Call) and is_name(c.func, n) for w in f.nested.values() for c in ast.walk(w.node))):
+            out[n] = g
+    _matcher_views[id(repo)] = (repo, out)
+    return out
+
+
 def rule_n3(repo):
     res = RuleResult('C09.N3', 'a schematic variable is bound only when it has no binding yet (the given instantiation is extended, never altered)', floor=3)
     f = repo.func(MATCHER, 'first_order_match')
     need(f.nested, 'first_order_match has no nested match function')
     n_stores = 0
-    for name, g in f.nested.items():
+    for name, g in matcher_nested(repo).items():
         cfg = cfg_of(g.node)
         for n in cfg.stmt_nodes(ast.Assign):
             for t in n.ast.targets:
                 if isinstance(t, ast.Subscript) and is_name(t.value, 'inst'):
                     n_stores += 1
-                    keytxt = src(t.slice)
+                    kflow = flow_of(g.node)
+                    keytxt = _key(kflow, t.slice)
 
-                    def fresh(e, pol, keytxt=keytxt):
+                    def fresh(e, pol, keytxt=keytxt, kflow=kflow):
                         cp = compare_parts(e)
-                        if not cp or not is_name(cp[2], 'inst') or src(cp[1]) != keytxt:
+                        if not cp or not is_name(cp[2], 'inst') or _key(kflow, cp[1]) != keytxt:
                             return False
                         return (cp[0] is ast.NotIn and pol) or (cp[0] is ast.In and not pol)
                     edges = cfg.establishing_edges(fresh)
@@ -159,17 +194,18 @@ def rule_n11(repo):
     f = repo.func(MATCHER, 'first_order_match')
     need(f.nested, 'first_order_match has no nested match function')
     rec_names = set(f.nested) | {'first_order_match', 'first_order_match_list'}
-    for name, g in f.nested.items():
+    for name, g in matcher_nested(repo).items():
         cfg = cfg_of(g.node)
         for n in cfg.stmt_nodes(ast.Assign):
             for t in n.ast.targets:
                 if not (isinstance(t, ast.Subscript) and is_name(t.value, 'inst')):
                     continue
-                keytxt = src(t.slice)
+                kflow = flow_of(g.node)
+                keytxt = _key(kflow, t.slice)
 
-                def fresh(e, pol, keytxt=keytxt):
+                def fresh(e, pol, keytxt=keytxt, kflow=kflow):
                     cp = compare_parts(e)
-                    if not cp or not is_name(cp[2], 'inst') or src(cp[1]) != keytxt:
+                    if not cp or not is_name(cp[2], 'inst') or _key(kflow, cp[1]) != keytxt:
                         return False
                     return (cp[0] is ast.NotIn and pol) or (cp[0] is ast.In and not pol)
                 edges = cfg.establishing_edges(fresh)
@@ -205,7 +241,7 @@ def rule_n4(repo):
     res = RuleResult('C09.N4', 'an argument is dropped from an instantiation (eta-contraction) only after a freeness test over the whole function part', floor=2)
     f = repo.func(MATCHER, 'first_order_match')
     WHOLE_TERM = {'get_vars', 'occurs_var', 'has_vars', 'has_var', 'find_term', 'get_svars'}
-    for name, g in f.nested.items():
+    for name, g in matcher_nested(repo).items():
         cfg = cfg_of(g.node)
         for n in cfg.stmt_nodes(ast.Assign):
             t, v = n.ast.targets[0], n.ast.value
@@ -336,7 +372,7 @@ def rule_n6(repo):
     Otherwise ?n::nat matches `true` and applying the instantiation to the pattern fails."""
     res = RuleResult('C09.N6', 'a schematic variable is bound only after its type was matched against the type of the term it is bound to', floor=3)
     f = repo.func(MATCHER, 'first_order_match')
-    for name, g in f.nested.items():
+    for name, g in matcher_nested(repo).items():
         cfg = cfg_of(g.node)
         tm = [n for n in cfg.nodes if n.kind == 'stmt' and any(
             isinstance(c, ast.Call) and call_attr(c) == 'match_incr' and c.args and path_of(c.args[-1]) == 'inst.tyinst' and
@@ -372,7 +408,7 @@ def rule_n8(repo):
     be on every path to the abstraction branch - not behind a shortcut on the number of arguments."""
     res = RuleResult('C09.N8', 'the instantiation of a schematic head is computed by abstraction only after the target was searched for bound variables that are not arguments', floor=1)
     f = repo.func(MATCHER, 'first_order_match')
-    g = need(f.nested.get('match'), 'first_order_match: nested match not found')
+    g = need(matcher_nested(repo).get('match'), 'first_order_match: nested match not found')
     cfg = cfg_of(g.node)
     # the binding of the head in the non-heuristic branch: inst[pat.head.name] = inst_t  (value a plain local name)
     binds = [n for n in cfg.stmt_nodes(ast.Assign) if any(isinstance(t, ast.Subscript) and is_name(t.value, 'inst') for t in n.ast.targets) and
@@ -451,7 +487,7 @@ def rule_n12(repo):
     %x. ?f (?m x + 1) matched %x. g x (r x + 1) with ?f := g x."""
     res = RuleResult('C09.N12', 'a part of the target is assigned to a schematic variable only after it was tested free of stand-ins for bound variables', floor=2)
     f = repo.func(MATCHER, 'first_order_match')
-    for name, g in f.nested.items():
+    for name, g in matcher_nested(repo).items():
         ps = g.params()
         if len(ps) < 2:
             continue
@@ -461,12 +497,13 @@ def rule_n12(repo):
             for t in n.ast.targets:
                 if not (isinstance(t, ast.Subscript) and is_name(t.value, 'inst')):
                     continue
-                v = path_of(n.ast.value)
+                nflow = flow_of(g.node)
+                v = path_of(nflow.inline(n.ast.value))          # also through a local that was given the part once (s = t.fun)
                 if v is None or v.split('.')[0] != tpar:
                     continue
 
-                def escapes(e, pol, v=v):
-                    return not pol and isinstance(e, ast.Call) and call_attr(e) in ('has_vars', 'has_var') and path_of(e.func.value) == v and \
+                def escapes(e, pol, v=v, nflow=nflow):
+                    return not pol and isinstance(e, ast.Call) and call_attr(e) in ('has_vars', 'has_var') and path_of(nflow.inline(e.func.value)) == v and \
                         e.args and 'bd_vars' in src(e.args[0], 40)
 
                 def no_binders(e, pol):
@@ -491,7 +528,7 @@ def rule_n13(repo):
     res = RuleResult('C09.N13', 'the stand-in for a bound variable also avoids the variables of the terms already assigned', floor=1)
     f = repo.func(MATCHER, 'first_order_match')
     n_sites = 0
-    for name, g in f.nested.items():
+    for name, g in matcher_nested(repo).items():
         flow = flow_of(g.node)
         for c, avoid, how, ok0, detail in fresh_sites(g):
             n_sites += 1
